@@ -147,6 +147,8 @@ func init() {
 				SlashVals: []int{0, 1}, SlashF: []string{"0.5", "0.333333333333333333"},
 				BlockDts: dts(3),
 			}
+			// amounts and a 50% slash that make the share price 5/6 (rounds down at 18 digits): full exits leave validator dust
+			dust := []world.Op{opDel(0, 0, "aaa", "4000000000"), opDel(1, 1, "aaa", "2000000000"), opSlash(1, "0.5")}
 			cycled := []world.Op{opDel(0, 0, "aaa", "10"), opDel(1, 1, "aaa", "7"), opBlock(3), opSlash(0, "0.333333333333333333"), opRed(1, 1, 0, "aaa", "2")}
 			req := func(sc *engine.Scenario) *engine.Scenario {
 				sc.Required = append(sc.Required, "asset.drained_to_zero", "block.take_rate")
@@ -157,14 +159,14 @@ func init() {
 				small.SlashF = []string{"0.333333333333333333", "0.5", "0.99"}
 				return []*engine.Scenario{
 					req(mk("c03-small", small, [][]world.Op{nil}, []int{6, 2, 0, 3, 0}, 8)),
-					mk("c03-cycled", small, [][]world.Op{cycled}, []int{5, 2, 0, 3, 0}, 7),
+					mk("c03-cycled", small, [][]world.Op{cycled, dust}, []int{5, 2, 0, 3, 0}, 7),
 					mk("c03-magnitude", mag, [][]world.Op{nil}, []int{6, 2, 0, 2, 0}, 8),
 					unionScenario("C03", "c03-union", tier, c03Step, nil),
 				}
 			}
 			return []*engine.Scenario{
 				req(mk("c03-small", small, [][]world.Op{nil}, []int{3, 1, 0, 2, 0}, 5)),
-				mk("c03-cycled", small, [][]world.Op{cycled}, []int{3, 1, 0, 2, 0}, 3),
+				mk("c03-cycled", small, [][]world.Op{cycled, dust}, []int{3, 1, 0, 2, 0}, 3),
 				mk("c03-magnitude", mag, [][]world.Op{nil}, []int{4, 1, 0, 2, 0}, 5),
 				unionScenario("C03", "c03-union", tier, c03Step, nil),
 			}
